@@ -56,13 +56,18 @@ def judgeResp (st : RespSt) (fields : List String) : RespSt × String :=
   | ["variant", _i, fmt, same, _n, _nref] =>
     -- a variant pike compressed itself at store time is what the best-compression profile produces
     (st, if same = "1" then s!"ok variant-{fmt} 1" else s!"ok variant-{fmt} 1 TRIP stored_variant_not_best_profile:{fmt}")
-  | [path, _i, ae, "=>", code, ce, bodyOK, same, clOK, xs, hdr, calls, _len] =>
+  | [path, _i, ae, "=>", code, ce, bodyOK, same, clOK, xs, hdr, calls, _len, age] =>
     if !st.active then (st, "BADLINE resp no case") else
     match unhex ae, code.toNat?, unhex ce, unhex xs, parseHeader hdr, calls.toNat? with
     | some ae, some code, some ce, some xs, some h, some calls =>
-      let want := cloneAndIgnore st.hdr
+      -- (Age is compared separately below: on a hit it is pike's own)
+      let want := (cloneAndIgnore st.hdr).filter (fun e => e.1 ≠ "Age".toList)
       let errs := Spec.C05.deliveredOK ae ce (bodyOK = "1") (clOK = "1") code st.status h want
       let trip := String.join (errs.map fun e => " TRIP " ++ e)
+      -- the upstream's own Age is an end-to-end header of its answer: an answer that is not served from pike's cache
+      -- carries it unchanged (a hit carries the age pike computed)
+      let upAge := st.hdr.values "Age".toList
+      let trip := trip ++ (if code = st.status ∧ xs ≠ "hit".toList ∧ !upAge.isEmpty ∧ (unhex age).map (fun a => [a]) ≠ some upAge then " TRIP status_or_header_changed" else "")
       -- model
       let hit := st.cacheable ∧ (path = "second" ∨ path = "again" ∨ path = "restored")
       let mxs : Str := if path = "post" then "passed".toList
